@@ -48,6 +48,8 @@ type c13Case struct {
 	// every program additionally tries to create entries in every directory it can name (root, binds, masked
 	// directories): wherever that succeeds is a writable mount, and Reset has to empty it
 	Masks bool `json:",omitempty"`
+	// how many times the sequence (programs, Reset, check) is gone through on the same container (0 = once)
+	Rounds int `json:",omitempty"`
 }
 
 // directories every program sprays (besides the tmpfs mounts)
@@ -56,7 +58,7 @@ var c13SprayDirs = []string{"/", "/usr", "/usr/share", "/data", "/data/private",
 var c13Kinds = []string{"file", "dir", "dir000", "dotfile", "weirdname", "symlink-dangling", "symlink-root", "fifo", "socket", "hardlink", "deep", "many", "heldopen", "nested-dirs"}
 
 func c13GenCase(rt *rapid.T) c13Case {
-	c := c13Case{Cred: rapid.Bool().Draw(rt, "cred"), Masks: rapid.IntRange(0, 2).Draw(rt, "masks") == 0}
+	c := c13Case{Cred: rapid.Bool().Draw(rt, "cred"), Masks: rapid.IntRange(0, 2).Draw(rt, "masks") == 0, Rounds: rapid.SampledFrom([]int{1, 1, 2, 3}).Draw(rt, "rounds")}
 	all := []string{"w", "tmp", "scratch/inner"}
 	nm := rapid.IntRange(1, 3).Draw(rt, "nmounts")
 	c.Mounts = all[:nm]
@@ -210,147 +212,162 @@ func c13Run(c c13Case, rec *vh.Recorder) error {
 	defer env.Destroy()
 	initPid := container.VerifInitPid(env)
 	desc := fmt.Sprintf("%+v", c)
-	created := 0
-	for pi := range c.Programs {
-		s := c13Script(c, pi)
-		if len(s.Ops) > 4000 {
-			return vh.Infraf("script too long")
-		}
-		opts := sandboxOpts{Script: s, Env: env}
-		how := c.Programs[pi].How
-		waitSentinel := func() {
-			p := fmt.Sprintf("/proc/%d/root/%s/zz-sentinel-%d", initPid, c.Mounts[0], pi)
-			for k := 0; k < 500; k++ {
-				if _, err := os.Lstat(p); err == nil {
-					return
+	created, before := 0, 0
+	// one round = the programs run, Reset, and the two views are checked; a pooled container goes through many rounds
+	round := func(rn int) (bool, error) {
+		desc := fmt.Sprintf("round %d of %d: %s", rn+1, c.Rounds, desc)
+		for pi := range c.Programs {
+			s := c13Script(c, pi)
+			if len(s.Ops) > 4000 {
+				return false, vh.Infraf("script too long")
+			}
+			opts := sandboxOpts{Script: s, Env: env}
+			how := c.Programs[pi].How
+			waitSentinel := func() {
+				p := fmt.Sprintf("/proc/%d/root/%s/zz-sentinel-%d", initPid, c.Mounts[0], pi)
+				for k := 0; k < 500; k++ {
+					if _, err := os.Lstat(p); err == nil {
+						return
+					}
+					time.Sleep(10 * time.Millisecond)
 				}
-				time.Sleep(10 * time.Millisecond)
+			}
+			var cancel context.CancelFunc
+			switch how {
+			case "after-exec":
+				opts.SyncAfterExec, opts.SyncFunc = true, func(int) error { return nil }
+			case "after-exec-syncfail":
+				opts.SyncAfterExec, opts.SyncFunc = true, func(int) error { waitSentinel(); return errors.New("refused by the caller") }
+			case "before-exec-syncfail":
+				opts.SyncFunc = func(int) error { return errors.New("refused by the caller") }
+			case "cancelled":
+				opts.Ctx, cancel = context.WithCancel(context.Background())
+				go func() { waitSentinel(); cancel() }()
+			}
+			tr, err := runContainer(opts)
+			if cancel != nil {
+				cancel()
+			}
+			if err != nil {
+				return false, err
+			}
+			if tr.Hung {
+				killTagged(tr.Tag)
+				return false, vh.Violf("C13:hung", "program %d did not finish; %s", pi, desc)
+			}
+			if how == "after-exec-syncfail" || how == "before-exec-syncfail" || how == "cancelled" {
+				// the run is meant to end badly; what it left behind still has to go
+			} else if tr.Result.Status != runner.StatusNormal {
+				return false, vh.Infraf("tree-building program ended %v %q", tr.Result.Status, tr.Result.Error)
+			}
+			for _, v := range tr.Report.R {
+				if v >= 0 {
+					created++
+				}
 			}
 		}
-		var cancel context.CancelFunc
-		switch how {
-		case "after-exec":
-			opts.SyncAfterExec, opts.SyncFunc = true, func(int) error { return nil }
-		case "after-exec-syncfail":
-			opts.SyncAfterExec, opts.SyncFunc = true, func(int) error { waitSentinel(); return errors.New("refused by the caller") }
-		case "before-exec-syncfail":
-			opts.SyncFunc = func(int) error { return errors.New("refused by the caller") }
-		case "cancelled":
-			opts.Ctx, cancel = context.WithCancel(context.Background())
-			go func() { waitSentinel(); cancel() }()
+		// something must exist before Reset for the case to mean anything
+		before = 0
+		for _, t := range c.Mounts {
+			ents, _ := os.ReadDir(fmt.Sprintf("/proc/%d/root/%s", initPid, t))
+			before += len(ents)
 		}
-		tr, err := runContainer(opts)
-		if cancel != nil {
-			cancel()
+		rerr := make(chan error, 1)
+		go func() { rerr <- env.Reset() }()
+		select {
+		case err = <-rerr:
+		case <-time.After(60 * time.Second):
+			return false, vh.Violf("C13:reset-hangs", "Reset did not return in 60s; %s", desc)
 		}
 		if err != nil {
+			rec.Class("reset-returned-error(not judged): "+firstWords(err.Error(), 6), 1)
+			rec.Case(c, false, "reset-error")
+			return false, nil
+		}
+		// host view
+		for _, t := range c.Mounts {
+			dir := fmt.Sprintf("/proc/%d/root/%s", initPid, t)
+			ents, err := os.ReadDir(dir)
+			if err != nil {
+				return false, vh.Infraf("host view of %s: %v", t, err)
+			}
+			// a nested tmpfs target ("scratch/inner") lives below "scratch", which is on the read-only root: fine
+			if len(ents) != 0 {
+				var names []string
+				for _, e := range ents {
+					names = append(names, fmt.Sprintf("%q(%v)", e.Name(), e.Type()))
+				}
+				return false, vh.Violf("C13:residue-after-reset", "Reset returned nil but /%s still contains %v; %s", t, names, desc)
+			}
+		}
+		if c.Masks {
+			for _, d := range c13SprayDirs {
+				ents, _ := os.ReadDir(fmt.Sprintf("/proc/%d/root%s", initPid, d))
+				for _, e := range ents {
+					if strings.HasPrefix(e.Name(), "spray_") {
+						return false, vh.Violf("C13:residue-after-reset", "Reset returned nil but %s (not a declared tmpfs, yet writable for the program) still contains %q; %s", d, e.Name(), desc)
+					}
+				}
+			}
+			for _, n := range []string{"public", "private/secret"} {
+				if _, err := os.Lstat(dataDir + "/" + n); err != nil {
+					return false, vh.Infraf("bind source lost %s: %v", n, err)
+				}
+			}
+		}
+		// a later program's view
+		var ls probe.Script
+		for _, t := range c.Mounts {
+			ls.Add("walk:" + ls.Str("/"+t) + ":3")
+		}
+		var sprayWalks []int
+		if c.Masks {
+			for _, d := range c13SprayDirs {
+				sprayWalks = append(sprayWalks, ls.Add("walk:"+ls.Str(d)+":1"))
+			}
+		}
+		ls.Add("exit:0")
+		tr, err := runContainer(sandboxOpts{Script: &ls, Env: env})
+		if err != nil {
+			return false, err
+		}
+		if tr.Hung || tr.Result.Status != runner.StatusNormal {
+			killTagged(tr.Tag)
+			return false, vh.Violf("C13:env-unusable-after-reset", "lister program: hung=%v %v %q; %s", tr.Hung, tr.Result.Status, tr.Result.Error, desc)
+		}
+		for _, w := range tr.Report.Walk {
+			if c.Masks {
+				// walks of the sprayed directories list what legitimately lives there; only sprayed names are residue
+				under := false
+				for _, t := range c.Mounts {
+					if strings.HasPrefix(w.Path, "/"+t+"/") {
+						under = true
+					}
+				}
+				if !under {
+					if i := strings.LastIndex(w.Path, "/"); i >= 0 && strings.HasPrefix(w.Path[i+1:], "spray_") && w.Err == 0 {
+						return false, vh.Violf("C13:residue-after-reset", "a later program sees %q after Reset; %s", w.Path, desc)
+					}
+					continue
+				}
+			}
+			if w.Err == 0 {
+				return false, vh.Violf("C13:residue-after-reset", "a later program sees %q after Reset; %s", w.Path, desc)
+			}
+		}
+		_ = sprayWalks
+		return true, nil
+	}
+	rounds := c.Rounds
+	if rounds < 1 {
+		rounds = 1
+	}
+	for rn := 0; rn < rounds; rn++ {
+		judged, err := round(rn)
+		if err != nil || !judged {
 			return err
 		}
-		if tr.Hung {
-			killTagged(tr.Tag)
-			return vh.Violf("C13:hung", "program %d did not finish; %s", pi, desc)
-		}
-		if how == "after-exec-syncfail" || how == "before-exec-syncfail" || how == "cancelled" {
-			// the run is meant to end badly; what it left behind still has to go
-		} else if tr.Result.Status != runner.StatusNormal {
-			return vh.Infraf("tree-building program ended %v %q", tr.Result.Status, tr.Result.Error)
-		}
-		for _, v := range tr.Report.R {
-			if v >= 0 {
-				created++
-			}
-		}
 	}
-	// something must exist before Reset for the case to mean anything
-	before := 0
-	for _, t := range c.Mounts {
-		ents, _ := os.ReadDir(fmt.Sprintf("/proc/%d/root/%s", initPid, t))
-		before += len(ents)
-	}
-	rerr := make(chan error, 1)
-	go func() { rerr <- env.Reset() }()
-	select {
-	case err = <-rerr:
-	case <-time.After(60 * time.Second):
-		return vh.Violf("C13:reset-hangs", "Reset did not return in 60s; %s", desc)
-	}
-	if err != nil {
-		rec.Class("reset-returned-error(not judged): "+firstWords(err.Error(), 6), 1)
-		rec.Case(c, false, "reset-error")
-		return nil
-	}
-	// host view
-	for _, t := range c.Mounts {
-		dir := fmt.Sprintf("/proc/%d/root/%s", initPid, t)
-		ents, err := os.ReadDir(dir)
-		if err != nil {
-			return vh.Infraf("host view of %s: %v", t, err)
-		}
-		// a nested tmpfs target ("scratch/inner") lives below "scratch", which is on the read-only root: fine
-		if len(ents) != 0 {
-			var names []string
-			for _, e := range ents {
-				names = append(names, fmt.Sprintf("%q(%v)", e.Name(), e.Type()))
-			}
-			return vh.Violf("C13:residue-after-reset", "Reset returned nil but /%s still contains %v; %s", t, names, desc)
-		}
-	}
-	if c.Masks {
-		for _, d := range c13SprayDirs {
-			ents, _ := os.ReadDir(fmt.Sprintf("/proc/%d/root%s", initPid, d))
-			for _, e := range ents {
-				if strings.HasPrefix(e.Name(), "spray_") {
-					return vh.Violf("C13:residue-after-reset", "Reset returned nil but %s (not a declared tmpfs, yet writable for the program) still contains %q; %s", d, e.Name(), desc)
-				}
-			}
-		}
-		for _, n := range []string{"public", "private/secret"} {
-			if _, err := os.Lstat(dataDir + "/" + n); err != nil {
-				return vh.Infraf("bind source lost %s: %v", n, err)
-			}
-		}
-	}
-	// a later program's view
-	var ls probe.Script
-	for _, t := range c.Mounts {
-		ls.Add("walk:" + ls.Str("/"+t) + ":3")
-	}
-	var sprayWalks []int
-	if c.Masks {
-		for _, d := range c13SprayDirs {
-			sprayWalks = append(sprayWalks, ls.Add("walk:"+ls.Str(d)+":1"))
-		}
-	}
-	ls.Add("exit:0")
-	tr, err := runContainer(sandboxOpts{Script: &ls, Env: env})
-	if err != nil {
-		return err
-	}
-	if tr.Hung || tr.Result.Status != runner.StatusNormal {
-		killTagged(tr.Tag)
-		return vh.Violf("C13:env-unusable-after-reset", "lister program: hung=%v %v %q; %s", tr.Hung, tr.Result.Status, tr.Result.Error, desc)
-	}
-	for _, w := range tr.Report.Walk {
-		if c.Masks {
-			// walks of the sprayed directories list what legitimately lives there; only sprayed names are residue
-			under := false
-			for _, t := range c.Mounts {
-				if strings.HasPrefix(w.Path, "/"+t+"/") {
-					under = true
-				}
-			}
-			if !under {
-				if i := strings.LastIndex(w.Path, "/"); i >= 0 && strings.HasPrefix(w.Path[i+1:], "spray_") && w.Err == 0 {
-					return vh.Violf("C13:residue-after-reset", "a later program sees %q after Reset; %s", w.Path, desc)
-				}
-				continue
-			}
-		}
-		if w.Err == 0 {
-			return vh.Violf("C13:residue-after-reset", "a later program sees %q after Reset; %s", w.Path, desc)
-		}
-	}
-	_ = sprayWalks
 	nt := false
 	var classes []string
 	for _, p := range c.Programs {
@@ -371,7 +388,7 @@ func c13Run(c c13Case, rec *vh.Recorder) error {
 			nt = true
 		}
 	}
-	classes = append(classes, fmt.Sprintf("cred=%v mounts=%d", c.Cred, len(c.Mounts)))
+	classes = append(classes, fmt.Sprintf("cred=%v mounts=%d", c.Cred, len(c.Mounts)), fmt.Sprintf("resets-on-one-container=%d", rounds))
 	if c.Masks {
 		classes = append(classes, "masked-directories+spray")
 	}
@@ -397,7 +414,7 @@ func firstWords(s string, n int) string {
 
 func TestC13Reset(t *testing.T) {
 	rec := vh.NewRecorder(t, "C13", "exploration",
-		"reset part: container with 1..3 tmpfs mounts (one nested) and a read-only bind, with/without a credential generator; 1..3 programs each create up to 6 entry groups per mount: files, directories, mode-000 directories with content, dot-names, names with spaces/newlines/glob characters/leading dash, dangling symlinks and symlinks to / /usr .., FIFOs, sockets, hard links across directories, 5/25/60-deep chains of 80-character names (> PATH_MAX), 10/300/2000 files in one directory, files held open by a daemon; one case in three also has a read-only bind with a masked directory and every program tries to create entries in every directory it can name (root, binds, masked directories); then Reset; oracle: if Reset returns nil every tmpfs is empty seen from the host (/proc/<init>/root) and from a later program; non-trivial = a mode-000 directory, depth > 20, > 500 entries or a special file")
+		"reset part: container with 1..3 tmpfs mounts (one nested) and a read-only bind, with/without a credential generator; 1..3 programs each create up to 6 entry groups per mount: files, directories, mode-000 directories with content, dot-names, names with spaces/newlines/glob characters/leading dash, dangling symlinks and symlinks to / /usr .., FIFOs, sockets, hard links across directories, 5/25/60-deep chains of 80-character names (> PATH_MAX), 10/300/2000 files in one directory, files held open by a daemon; one case in three also has a read-only bind with a masked directory and every program tries to create entries in every directory it can name (root, binds, masked directories); then Reset - the whole sequence 1..3 times on the same container; oracle: if Reset returns nil every tmpfs is empty seen from the host (/proc/<init>/root) and from a later program; non-trivial = a mode-000 directory, depth > 20, > 500 entries or a special file")
 	vh.Check(t, rec, c13GenCase, func(c c13Case) error { return c13Run(c, rec) })
 }
 
